@@ -36,6 +36,11 @@ class Str(Expression):
         if not self.value:
             out += STATUS << True
             out += RESULT << self.value
+
+            # Like every other literal that matched, the empty string is
+            # followed by ignored input.
+            if self.skip_ignored:
+                out += POS << utils.skip_ignored(POS, flags)
             return
 
         value = out.var('value', self.value)
